@@ -33,7 +33,7 @@ def pack_msb(vals: np.ndarray, nbits: int) -> np.ndarray:
     return out.astype(np.uint8)
 
 
-def make_pfits(path, raw, scl, offs, wts, *, nbits, freqs, pol_type, tbin=0.001, zero_off=0.0):
+def make_pfits(path, raw, scl, offs, wts, *, nbits, freqs, pol_type, tbin=0.001, zero_off=0.0, nstot=None):
     """raw: int array (S, NSBLK, npol, C); scl, offs: (S, npol, C); wts: (S, C); freqs: (C,) MHz in file order."""
     raw = np.asarray(raw)
     S, nsblk, npol, C = raw.shape
@@ -57,7 +57,7 @@ def make_pfits(path, raw, scl, offs, wts, *, nbits, freqs, pol_type, tbin=0.001,
     for k, val in [("INT_TYPE", "TIME"), ("INT_UNIT", "SEC"), ("SCALE", "FluxDen"), ("NPOL", npol), ("POL_TYPE", pol_type),
                    ("TBIN", tbin), ("NBIN", 1), ("NBIN_PRD", 0), ("PHS_OFFS", 0.0), ("NBITS", nbits), ("ZERO_OFF", zero_off),
                    ("SIGNINT", 0), ("NSUBOFFS", 0), ("NCHAN", C), ("CHAN_BW", chan_bw), ("DM", 0.0), ("RM", 0.0), ("NCHNOFFS", 0),
-                   ("NSBLK", nsblk), ("NSTOT", S * nsblk), ("EPOCHS", "VALID")]:
+                   ("NSBLK", nsblk), ("NSTOT", S * nsblk if nstot is None else int(nstot)), ("EPOCHS", "VALID")]:
         h[k] = val
     pri = _primary()
     pri["OBSNCHAN"] = C
